@@ -2,50 +2,102 @@
    Statements only; every proof is `exact <lemma of MT/WorkMT*.v>`.
 
    Reading guide.  `tr` ranges over ALL label sequences accepted by the transition system MT/WorkMT.v from its
-   initial state with owner thread `o` (`run (init o) tr = Some s`): any submission program (bursts, submissions
-   from completions and timers, continuations from work functions, NULL-pool items, put), any schedule of the
-   owner, the pool threads and helper threads at every lock / post / kick / wait, any max_threads >= 1, the idle
-   timer firing at any moment.  The implementation side (acceptance of the logs of the real iv_work.c) is the
-   correspondence check lib/c12.py.
-
-   CHECKPOINT STATE: theorems whose name ends in `_partial` are weaker than the property clause they belong to
-   (see the comment at each); the remaining clauses (exactly-once on traces, all-complete at QUIESCENT, NULL
-   pool) are so far only enforced by `step` on every implementation log, not yet stated as theorems. *)
+   initial state with owner thread `o` (`run (init o) tr = Some s`, `accepts o tr = true`): any submission program
+   (bursts, submissions from completions and timers, continuations from work functions, NULL-pool items, put),
+   any schedule of the owner, the pool threads and helper threads at every lock / post / kick / wait, any
+   max_threads >= 1, the idle timer firing at any moment.  Accepted sequences are prefix-closed, so a statement
+   about counts in `tr` holds at every moment of a run.  The implementation side (the logs of the real iv_work.c
+   are accepted, and pass the same monitors) is the correspondence check lib/c12.py.
+   `count (is_sub i)`, `is_wk`, `is_rt`, `is_cp` count the submissions (pool or NULL pool), work-function
+   starts, work-function returns and completions of item i in a sequence. *)
 From Coq Require Import List ZArith Bool.
-From Ivv Require Import MT.WorkMT MT.WorkMTSpec MT.WorkMTProofs.
+From Ivv Require Import MT.WorkMT MT.WorkMTSpec MT.WorkMTMon MT.WorkMTInvI MT.WorkMTSim MT.WorkMTFinal.
 Import ListNotations.
 Local Open Scope Z_scope.
 
-(* Bounded parallelism, state form: in every reachable state the number of pool threads that are inside a work
-   function (between Cw and Xw) is at most started_threads, which is at most max_threads.
-   partial: the count is taken in the model state, not yet on the trace (LWork / LRet labels). *)
-Theorem C12_bounded_parallelism_partial :
-  forall o tr s p, run (init o) tr = Some s -> pl s = PLive p ->
-    Z.of_nat (nwork s) <= pstarted p /\ pstarted p <= pmax p.
-Proof. exact running_bounded. Qed.
-Print Assumptions C12_bounded_parallelism_partial.
+(* Exactly once, in order: at every moment and for every item, completions <= work returns <= work starts <=
+   submissions <= completions + 1: a submitted item is worked on at most once, completed at most once, and
+   only after its work function returned; it is not submitted again before its completion. *)
+Theorem C12_exactly_once :
+  forall o tr s i, run (init o) tr = Some s ->
+    (count (is_cp i) tr <= count (is_rt i) tr)%nat /\ (count (is_rt i) tr <= count (is_wk i) tr)%nat /\
+    (count (is_wk i) tr <= count (is_sub i) tr)%nat /\ (count (is_sub i) tr <= count (is_cp i) tr + 1)%nat.
+Proof. exact exactly_once. Qed.
+Print Assumptions C12_exactly_once.
 
-(* W4 of Appendix A.7 (no lost work wake-up): whenever work is queued, a thread is being created for it, or some
-   pool thread is starting / inside got_event / running work, or is in its loop with its kick event posted (or the
-   post owed by the holder of the pool lock) and either off the idle list or marked `kicked`.
-   partial: the W5 half (finished work => the owner's event is posted or being handled) is not yet included. *)
-Theorem C12_work_wakeup_invariant_partial :
-  forall o tr s, run (init o) tr = Some s -> W4 s.
-Proof. intros o tr s H. exact (i_w4 s (Inv_run o tr s H)). Qed.
-Print Assumptions C12_work_wakeup_invariant_partial.
+(* ... in the right threads: the work function of a pool item runs in a thread other than the owner that has run the
+   thread-start hook and not the stop hook; work function and completion of a NULL-pool item run in the submitting
+   thread (only the owner submits); every completion runs in the owner. *)
+Theorem C12_right_threads :
+  forall o tr s l s', run (init o) tr = Some s -> step s l = Some s' ->
+    match l with
+    | LWork t i => (items s i = IQ -> t <> o /\ abs_hook s t = HkStarted) /\ (items s i = ILQ -> t = o)
+    | LRet t i => (items s i = IW -> t <> o) /\ (items s i = ILW -> t = o)
+    | LCompl t _ | LLocal t _ => t = o
+    | _ => True
+    end.
+Proof. exact thread_clauses. Qed.
+Print Assumptions C12_right_threads.
 
-(* W1: the sequence counters always describe the queue: |work_items| = seq_tail - seq_head (mod 2^32) < 2^31,
-   so the signed 32-bit loop test of got_event sees exactly whether work is queued. *)
-Theorem C12_queue_counters :
-  forall o tr s, run (init o) tr = Some s -> W1 s.
-Proof. intros o tr s H. exact (i_w1 s (Inv_run o tr s H)). Qed.
-Print Assumptions C12_queue_counters.
+(* Bounded parallelism on the trace: the number of pool work functions that have started and not returned
+   (Cw of a non-owner thread minus Xw) equals the number of pool threads inside a work function, and is at most
+   started_threads <= max_threads; it is 0 when there is no pool. *)
+Theorem C12_bounded_parallelism :
+  forall o tr s, run (init o) tr = Some s ->
+    running o tr = Z.of_nat (nwork s) /\
+    match pl s with PLive p => running o tr <= pstarted p /\ pstarted p <= pmax p | _ => running o tr = 0 end.
+Proof. exact bounded_parallelism. Qed.
+Print Assumptions C12_bounded_parallelism.
 
-(* W2: every live pool thread is on the idle list (timer armed), or is starting / active, or has its kick posted. *)
-Theorem C12_worker_accounted :
-  forall o tr s, run (init o) tr = Some s -> W2 s /\ Widle s /\ W1b s.
-Proof. intros o tr s H. destruct (Inv_run o tr s H). auto. Qed.
-Print Assumptions C12_worker_accounted.
+(* W4 / W5 of Appendix A.7 hold in every reachable state: queued work always has a thread being created for it, or
+   a pool thread that is starting / in got_event / running work, or one in its loop whose kick event is posted (or
+   owed by the holder of the pool lock) and that is off the idle list or marked `kicked`; finished work always
+   has the owner's event posted, popped, or owed; a shut-down pool without threads is about to be freed. *)
+Theorem C12_work_wakeup_invariant :
+  forall o tr s, run (init o) tr = Some s -> W4 s /\ W5 s.
+Proof. exact wakeup_invariant. Qed.
+Print Assumptions C12_work_wakeup_invariant.
+
+(* All complete: when a run ends (QUIESCENT: every thread blocked for ever, nothing pending; or D) every submission
+   has had its work function run and returned and its completion run: the counts are equal for every item. *)
+Theorem C12_all_complete :
+  forall o tr l s', run (init o) (tr ++ [l]) = Some s' -> l = LQuiescent \/ l = LDone ->
+    forall i, count (is_sub i) tr = count (is_cp i) tr /\ count (is_wk i) tr = count (is_sub i) tr /\
+              count (is_rt i) tr = count (is_sub i) tr.
+Proof. exact ended_complete. Qed.
+Print Assumptions C12_all_complete.
+
+(* ... and at QUIESCENT the queues are empty, no item is in flight, every pool thread has died (idle timeout or
+   shutdown) and every created thread has been joined. *)
+Theorem C12_quiescent_drained :
+  forall o tr s', run (init o) (tr ++ [LQuiescent]) = Some s' ->
+    exists s, run (init o) tr = Some s /\ pitems_of s = [] /\ pdone_of s = [] /\ (forall i, items s i = IIdle) /\
+              (forall w, wpc_of s w = WNone \/ wpc_of s w = WDead) /\ (forall n, In n (tids s) -> tp (th s n) = TJoined) /\
+              ~ put_state s.
+Proof. exact quiescent_drained. Qed.
+Print Assumptions C12_quiescent_drained.
+
+(* NULL pool: submission, work function and completion of a local item all happen in the owner (= submitting) thread;
+   the work function is started from the loop (HLocal batch), never inside the submit call -- see C12_right_threads
+   and the LLocal / ILQ cases of `step`. *)
+Theorem C12_local_pool :
+  forall o tr s l s', run (init o) tr = Some s -> step s l = Some s' ->
+    match l with
+    | LWork t i => (items s i = IQ -> t <> o /\ abs_hook s t = HkStarted) /\ (items s i = ILQ -> t = o)
+    | LRet t i => (items s i = IW -> t <> o) /\ (items s i = ILW -> t = o)
+    | LCompl t _ | LLocal t _ => t = o
+    | _ => True
+    end.
+Proof. exact thread_clauses. Qed.
+Print Assumptions C12_local_pool.
+
+(* Every accepted sequence passes the C12 monitor of MT/WorkMTMon.v (the monitor that lib/c12.py runs on the logs
+   of the implementation): per item Idle -> submitted -> running -> returned -> Idle with the thread clauses, at most
+   max_threads pool work functions at once, nothing in flight at QUIESCENT / D. *)
+Theorem C12_monitor_accepts :
+  forall o tr, accepts o tr = true -> mon12_ok o tr = true.
+Proof. exact accepts_mon12. Qed.
+Print Assumptions C12_monitor_accepts.
 
 (* Non-vacuity: the label sequence of a real log (max_threads = 2, three submissions, a continuation from a work
    function, two pool threads, self-kick with work pending, put from a completion, both threads stopped and
